@@ -48,6 +48,9 @@ func (kv *KV) Unmarshal(data []byte) error {
 			if err != nil {
 				return err
 			}
+			if size < 0 {
+				return fmt.Errorf("invalid size")
+			}
 			offset += n
 			if dataSize-offset < size {
 				return fmt.Errorf("remaining data to short for indicated size")
